@@ -254,6 +254,25 @@ def main():
                               impl=(lambda res=res: res), dec=lambda w: decode_result(w, j2text),
                               oracle=(lambda out, tu=tu: ('segment raised ' + out[1]) if out[0] != 'ok' else gens.aligned(tu, out[1])),
                               nontrivial=lambda m: True))
+    # a history: a call whose runs FAIL (a grammar that does not derive the text: the program exits with an error), then a
+    # valid call in the same process - the failure of the first must not reach the second
+    gdir = tempfile.mkdtemp(prefix='c02g_')
+    try:
+        gpath = os.path.join(gdir, 'only_a.lt')
+        open(gpath, 'w', encoding='utf8').write(ag.build_colloc0_grammar(['a']))
+        tu = [['a', 'b'], ['b', 'a', 'b']]
+        r1, _, _, a1 = run_case(ck, bindir_real, tu, None, 3, 1, 3, 2, 2, 0, gpath, 'Colloc0', 'history-after-failure')
+        ck.count('history_first_call:' + (r1[0] if r1[0] == 'ok' else r1[1]))
+        r2, runs2, left2, a2 = run_case(ck, bindir_real, tu, None, 3, 1, 4, 2, 2, 0, None, 'Colloc0', 'history-after-failure')
+        desc = {'history': [{'text': gens.lines(tu), 'grammar': 'Colloc0 grammar over the unit a only', 'args': a1, 'result': repr(r1)[:120]},
+                            {'text': gens.lines(tu), 'grammar': None, 'args': a2}], 'family': 'history-after-failure'}
+        ck.case('history-after-failure', True, sample=desc)
+        ck.count('family:history-after-failure')
+        why = ('segment raised ' + r2[1]) if r2[0] != 'ok' else gens.aligned(tu, r2[1])
+        if why:
+            bad.append((desc, 'a valid call made after a call whose runs failed: ' + why))
+    finally:
+        shutil.rmtree(gdir, ignore_errors=True)
     for c in cases:
         ck.count('family:' + c['desc']['family'])
     for d, what in bad[:3]:
